@@ -263,6 +263,9 @@ theorem shape_Conn_h_904 : Facts.shape_Conn_h_904 = some "ccf513620a340920" := b
 /-- [C19] `Conn.h.908` is the body the model transcribes -/
 theorem shape_Conn_h_908 : Facts.shape_Conn_h_908 = some "54f2697a81d4a77b" := by decide
 
+/-- [C19] `capSet.Clear` (run by `initialise` at every connect) empties the set -/
+theorem shape_capSet_Clear : Facts.shape_capSet_Clear = some "d5a27384d80355f8" := by decide
+
 /-- [C19] `capSet.Add` is the body the model transcribes -/
 theorem shape_capSet_Add : Facts.shape_capSet_Add = some "fdcbdb638fc9d349" := by decide
 
@@ -490,9 +493,9 @@ theorem shape_Conn_Close : Facts.shape_Conn_Close = some "dd307aad985d0218" := b
 foreground handler, of the connection has finished: a new connection cannot start before) -/
 theorem shape_Conn_closeFor : Facts.shape_Conn_closeFor = some "7a4905e768233287" := by decide
 
-/-- [C03,C06,C07,C18] `Conn.initialise` is the body the model transcribes: both queues are made afresh for every connection
+/-- [C03,C06,C07,C18,C19] `Conn.initialise` is the body the model transcribes: both queues are made afresh for every connection
 (nothing queued on or for an earlier connection reaches the next one) -/
-theorem shape_Conn_initialise : Facts.shape_Conn_initialise = some "ea200d427896e9d6" := by decide
+theorem shape_Conn_initialise : Facts.shape_Conn_initialise = some "f0d142f345650584" := by decide
 
 /-- [C06,C07] `Conn.Connected` is the body the model transcribes: it reads the flag under `cmu`, not under `mu`, so
 a handler that asks does not wait for a teardown in progress (the model's handlers never need `mu`) -/
@@ -556,7 +559,7 @@ theorem closure_C01 : Facts.closure_C01 = some "b68b3740da1fe42c" := by decide
 theorem closure_C02 : Facts.closure_C02 = some "b68b3740da1fe42c" := by decide
 
 /-- [C03] everything the roots of C03 can reach is as pinned -/
-theorem closure_C03 : Facts.closure_C03 = some "8512c5406ab37df2" := by decide
+theorem closure_C03 : Facts.closure_C03 = some "20352feb0ea96442" := by decide
 
 /-- [C04] everything the roots of C04 can reach is as pinned -/
 theorem closure_C04 : Facts.closure_C04 = some "b68b3740da1fe42c" := by decide
@@ -565,19 +568,19 @@ theorem closure_C04 : Facts.closure_C04 = some "b68b3740da1fe42c" := by decide
 theorem closure_C05 : Facts.closure_C05 = some "b68b3740da1fe42c" := by decide
 
 /-- [C06] everything the roots of C06 can reach is as pinned -/
-theorem closure_C06 : Facts.closure_C06 = some "8512c5406ab37df2" := by decide
+theorem closure_C06 : Facts.closure_C06 = some "20352feb0ea96442" := by decide
 
 /-- [C07] everything the roots of C07 can reach is as pinned -/
-theorem closure_C07 : Facts.closure_C07 = some "8512c5406ab37df2" := by decide
+theorem closure_C07 : Facts.closure_C07 = some "20352feb0ea96442" := by decide
 
 /-- [C08] everything the roots of C08 can reach is as pinned -/
 theorem closure_C08 : Facts.closure_C08 = some "110609358b4e60aa" := by decide
 
 /-- [C09] everything the roots of C09 can reach is as pinned -/
-theorem closure_C09 : Facts.closure_C09 = some "6421054c08f9d207" := by decide
+theorem closure_C09 : Facts.closure_C09 = some "f5b067c176b9b315" := by decide
 
 /-- [C10] everything the roots of C10 can reach is as pinned -/
-theorem closure_C10 : Facts.closure_C10 = some "e5699f788ee3a8e9" := by decide
+theorem closure_C10 : Facts.closure_C10 = some "ad5f03ca351ab5b8" := by decide
 
 /-- [C11] everything the roots of C11 can reach is as pinned -/
 theorem closure_C11 : Facts.closure_C11 = some "c5a00cfc57678af7" := by decide
@@ -595,18 +598,18 @@ theorem closure_C14 : Facts.closure_C14 = some "6f9d90a7ca64f11b" := by decide
 theorem closure_C15 : Facts.closure_C15 = some "eae4d61ba5f0516e" := by decide
 
 /-- [C16] everything the roots of C16 can reach is as pinned -/
-theorem closure_C16 : Facts.closure_C16 = some "8512c5406ab37df2" := by decide
+theorem closure_C16 : Facts.closure_C16 = some "20352feb0ea96442" := by decide
 
 /-- [C17] everything the roots of C17 can reach is as pinned -/
 theorem closure_C17 : Facts.closure_C17 = some "efe255acdaf16ef6" := by decide
 
 /-- [C18] everything the roots of C18 can reach is as pinned -/
-theorem closure_C18 : Facts.closure_C18 = some "81988f5ece355bd5" := by decide
+theorem closure_C18 : Facts.closure_C18 = some "61020e998413d497" := by decide
 
 /-- [C19] everything the roots of C19 can reach is as pinned -/
-theorem closure_C19 : Facts.closure_C19 = some "219fde050c993caf" := by decide
+theorem closure_C19 : Facts.closure_C19 = some "0646fda0167afdd4" := by decide
 
 /-- [C20] everything the roots of C20 can reach is as pinned -/
-theorem closure_C20 : Facts.closure_C20 = some "8512c5406ab37df2" := by decide
+theorem closure_C20 : Facts.closure_C20 = some "20352feb0ea96442" := by decide
 
 end FactsCheck
